@@ -138,7 +138,8 @@ CLAIMS = {
              "every moment at which the request becomes visible and every bound, the loop answers unknown or exactly the "
              "answer of the run without the request; a request visible before the first round gives unknown; a definitive answer of a stopped run is the undisturbed "
              "answer; a request gives unknown when no earlier round decides; a later request disturbs no more than an earlier "
-             "one. Tie: the harness "
+             "one; the same for the two-level loop (solve_ over search, flags polled before every round and in every "
+             "iteration after propagate; a request visible at any poll of any round). Tie: the harness "
              "calls notifyStop / notifyGlobalStop from another thread after a random delay between zero and 1.5 times the "
              "solving time of the instance (measured on an undisturbed run; small big-coefficient arithmetic instances and, every "
              "other round, planted 3-SAT instances near the threshold with many conflicts), requires unknown or the undisturbed "
